@@ -16,13 +16,15 @@ EXPLANATION = (
     "frequencies are normalised counts over all rows, NaN filled first); R-merge-target (rare values "
     "of a level are replaced by level_order.get_group(value), masks and targets are built over the "
     "same iterable, levels are visited in the given order, and the same (discarded, kept) pairs are "
-    "recorded in values_orders); R-unknown-exhaustive (unknown_handling is asserted to be raise|drop, "
+    "recorded in values_orders, and the level loop has no early exit); R-unknown-exhaustive (unknown values "
+    "are the observed values outside self.known_values, str_nan excepted; unknown_handling is asserted to be raise|drop, "
     "'raise' asserts naming the feature, 'drop' groups the unknown value into str_nan); "
-    "R-known-values-kept (every value of the hierarchy is appended to each feature's order); "
+    "R-known-values-kept (every value of the hierarchy is appended to each feature's order; the members of "
+    "a level are validated against the cumulated values of all earlier levels); "
     "R-select-nonempty (numpy.select is only called when a value has to be merged at that level)."
 )
 NOT_DECIDED = "which values end up merged on given data; pandas value_counts/select semantics"
-FLOORS = {"R-append-absent": 4, "R-thresholds": 3, "R-merge-target": 5, "R-unknown-exhaustive": 3, "R-known-values-kept": 2, "R-select-nonempty": 1}
+FLOORS = {"R-append-absent": 4, "R-thresholds": 3, "R-merge-target": 6, "R-unknown-exhaustive": 4, "R-known-values-kept": 3, "R-select-nonempty": 1}
 
 CLS = "ChainedDiscretizer"
 
@@ -79,6 +81,11 @@ def rule_merge_target(ctx):
            "" if ok else f"loop over {[unparse(l.iter) for l in loops]}")
     if not ok:
         return
+    # ... every level, for every feature: no early exit from the level loop or the feature loop
+    cfg0 = cfg_of(ctx, fi)
+    jumps = [n for n in walk_no_nested(fi.node) if isinstance(n, (ast.Break, ast.Continue, ast.Return)) and any(isinstance(l, ast.For) for l in cfg0.enclosing_loops(n))]
+    ctx.ob(R, construct(fi, "no level is skipped: the level loop has no break / continue / return"), not jumps, loc(fi, jumps[0] if jumps else loops[0]),
+           "" if not jumps else "groups that stay rare (or empty) at this level are no longer merged further up the hierarchy")
     level = loops[0].target.id
     vtg = defs.get("values_to_group")
     gv = defs.get("groups_value")
@@ -163,6 +170,21 @@ def rule_unknown(ctx):
         fails = t in ("False", "notunknown_values") or cct in (("len(unknown_values)", "<=", "0"), ("0", "==", "len(unknown_values)"), ("len(unknown_values)", "<", "1"))
         names = a.msg is not None and any(isinstance(n, ast.Name) and n.id == "feature" for n in ast.walk(a.msg))
         ok = ok or (under_unknown and fails and names)
+    # unknown = not part of the hierarchy (self.known_values), missing values excepted: the feature's
+    # own order is no reference (StringDiscretizer adds every observed value to it)
+    uv = [n.value for n in walk_no_nested(fp.node) if isinstance(n, ast.Assign) and unparse(n.targets[0]) == "unknown_values"]
+    okc = False
+    if len(uv) == 1 and isinstance(uv[0], ast.ListComp) and len(uv[0].generators) == 1:
+        g = uv[0].generators[0]
+        cs = set()
+        for i in g.ifs:
+            for c in conjuncts(i):
+                cs.add(cmp_canon(c))
+        v = unparse(g.target)
+        okc = cs == {(v, "not in", "self.known_values"), ("self.str_nan", "!=", v)} or cs == {(v, "not in", "self.known_values"), (v, "!=", "self.str_nan")}
+        okc = okc and "unique()" in unparse(g.iter) and "[feature]" in unparse(g.iter)
+    ctx.ob(R, construct(fp, "unknown values = observed values outside the hierarchy (self.known_values), str_nan excepted"), okc, loc(fp, uv[0] if uv else None),
+           "" if okc else f"found {short(uv[0]) if uv else 'no definition of unknown_values'}")
     ctx.ob(R, construct(fp, "'raise': AssertionError naming the feature when an unknown value exists"), ok, loc(fp, raising[0] if raising else None))
     # 'drop' branch: group(unknown_value, self.str_nan)
     grp = [c for c in calls(fp, "group") if len(c.args) == 2 and unparse(c.args[1]) == "self.str_nan"]
@@ -187,6 +209,27 @@ def rule_known_values(ctx):
         if loops and unparse(loops[0].iter) == "self.known_values" and unparse(loops[0].target) == unparse(c.args[0]):
             ok = True
     ctx.ob(R, construct(fi, "every value of the hierarchy is added to each feature's order"), ok, loc(fi))
+    # a level may regroup values of any earlier level: members are validated against the cumulated
+    # known values (initialised with level 0, extended with each group), never a single level
+    kv = _assigns(fi, "known_values")
+    outer = [a for a in kv if not cfg.enclosing_loops(a)]
+    inner = [a for a in kv if cfg.enclosing_loops(a)]
+    okk = (
+        len(outer) == 1 and unparse(outer[0].value) == "self.chained_orders[0].values()" and inner
+        and all(any(isinstance(n, ast.Name) and n.id == "known_values" for n in ast.walk(a.value)) and "next_group" in unparse(a.value) for a in inner)
+    )
+    filt = []
+    for n in walk_no_nested(fi.node):
+        if isinstance(n, ast.Assign) and unparse(n.targets[0]) in ("next_unknown", "next_known") and isinstance(n.value, ast.ListComp):
+            for i in n.value.generators[0].ifs:
+                for c in conjuncts(i):
+                    cc = cmp_canon(c)
+                    if cc and cc[1] in ("in", "not in"):
+                        filt.append((unparse(n.targets[0]), cc[1], cc[2]))
+    okf = sorted(filt) == [("next_known", "in", "known_values"), ("next_unknown", "not in", "known_values")]
+    stored = any(isinstance(n, ast.Assign) and unparse(n.targets[0]) == "self.known_values" and unparse(n.value) == "known_values" for n in walk_no_nested(fi.node))
+    ctx.ob(R, construct(fi, "members of a level are validated against the cumulated values of all previous levels"), bool(okk and okf and stored), loc(fi, outer[0] if outer else None),
+           "" if (okk and okf and stored) else f"membership filters: {filt}; a hierarchy whose group skips a level would be refused (or accepted with unknown members)")
     sb = [c for c in calls(fi, "sort_by") if unparse(c.args[0]) == "self.known_values"] if calls(fi, "sort_by") else []
     used = False
     for c in sb:
@@ -210,6 +253,9 @@ MUTANTS = [
     M("D28-reverted: unknown value appended although StringDiscretizer may have recorded it", [(F_QUAL, "                        if unknown_value not in order:\n                            order.append(unknown_value)\n", "                        order.append(unknown_value)\n")], "R-append-absent", "unknown_value", quick=True),
     M("D8-reverted: str_nan appended for every unknown value", [(F_QUAL, "                        if self.str_nan not in order:\n                            order.append(self.str_nan)\n", "                        order.append(self.str_nan)\n")], "R-append-absent", "_prepare_data", quick=True),
     M("D23-reverted: select on an empty condition list", [(F_QUAL, "                if len(values_to_group) > 0:\n                    x_copy[feature] = select(df_to_input, groups_value, default=x_copy[feature])\n", "                x_copy[feature] = select(df_to_input, groups_value, default=x_copy[feature])\n")], "R-select-nonempty", quick=True),
+    M("level loop stops when nothing was moved", [(F_QUAL, "                # updating frequencies of each modality for the next ordering\n", "                if not any(to_input.any() for to_input in df_to_input):\n                    break\n\n                # updating frequencies of each modality for the next ordering\n")], "R-merge-target", "no level is skipped"),
+    M("unknown values looked up in the feature's own order", [(F_QUAL, "                if value not in self.known_values and value != self.str_nan", "                if value not in order.values() and value != self.str_nan")], "R-unknown-exhaustive", "outside the hierarchy"),
+    M("levels validated against the previous level only", [(F_QUAL, "                    if value not in known_values and value != next_group", "                    if value not in self.chained_orders[n].values() and value != next_group")], "R-known-values-kept", "cumulated"),
     M("strict frequency threshold", [(F_QUAL, "to_keep = list(values[frequencies >= self.min_freq]) + [", "to_keep = list(values[frequencies > self.min_freq]) + [")], "R-thresholds", "kept iff", quick=True),
     M("missing values no longer kept apart", [(F_QUAL, "to_keep = list(values[frequencies >= self.min_freq]) + [\n                    self.str_nan,\n                ]", "to_keep = list(values[frequencies >= self.min_freq])")], "R-thresholds", "sentinel"),
     M("absolute counts compared with min_freq", [(F_QUAL, "            frequencies = x_copy[feature].value_counts(normalize=True)\n\n            # iterating over each specified orders", "            frequencies = x_copy[feature].value_counts()\n\n            # iterating over each specified orders")], "R-thresholds", "shares"),
